@@ -5,11 +5,12 @@ pub mod c04;
 pub mod c05;
 pub mod c07;
 pub mod c16;
+pub mod c17;
 pub mod c18;
 
 use crate::engine::Property;
 
-pub const ALL_IDS: &[&str] = &["C01", "C03", "C04", "C05", "C07", "C16", "C18"];
+pub const ALL_IDS: &[&str] = &["C01", "C03", "C04", "C05", "C07", "C16", "C17", "C18"];
 
 pub fn build(id: &str) -> Option<Property> {
     match id {
@@ -19,6 +20,7 @@ pub fn build(id: &str) -> Option<Property> {
         "C05" => Some(c05::build()),
         "C07" => Some(c07::build()),
         "C16" => Some(c16::build()),
+        "C17" => Some(c17::build()),
         "C18" => Some(c18::build()),
         _ => None,
     }
